@@ -150,7 +150,12 @@ impl Watch {
         let evs = match r {
             None => return vec![],
             Some(Err(e)) => {
-                self.flag(&[], "harness/build", format!("{what}: cannot build: {e}"));
+                if self.lenient {
+                    // e.g. an answer to a delivered packet with id 0: the application cannot build it
+                    self.note(format!("{what} -> (builder refused: {e})"));
+                } else {
+                    self.flag(&[], "harness/build", format!("{what}: cannot build: {e}"));
+                }
                 return vec![];
             }
             Some(Ok(e)) => e,
@@ -961,6 +966,8 @@ impl Watch {
         self.want_close = false;
         if !self.lenient {
             self.sync(&what, false);
+        } else {
+            self.lenient_resync();
         }
     }
 }
